@@ -236,8 +236,8 @@ def foldCet (c : Ty → Ty → Ty) : List Ty → Ty
 def commonF : Nat → Ty → Ty → Ty
   | 0, _, _ => .any
   | n + 1, a, b =>
-    if (match a with | .unit => true | _ => false) then b
-    else if (match b with | .unit => true | _ => false) then a
+    if a.isUnit then b
+    else if b.isUnit then a
     else if asg cfg sfh a b then a
     else if asg cfg sfh b a then b
     else
